@@ -100,6 +100,9 @@ pub struct JPlan {
     /// read through `Deserialize::deserialize_in_place` into an existing (different) value
     #[serde(default)]
     pub in_place: bool,
+    /// the value of this entry (path of entry indices) is written as `null` in the text that is read
+    #[serde(default)]
+    pub null_field: Option<Vec<u8>>,
 }
 
 impl JPlan {
@@ -123,6 +126,7 @@ impl JPlan {
             flip: None,
             retry: false,
             in_place: false,
+            null_field: None,
         }
     }
 }
@@ -255,7 +259,9 @@ fn num_text(kind: Kind, bits: u64) -> String {
     let r = match kind {
         Kind::F32 => serde_json::to_string(&f32::from_bits(bits as u32)),
         Kind::F64 => serde_json::to_string(&f64::from_bits(bits)),
-        Kind::I8 | Kind::I16 | Kind::I32 | Kind::I64 | Kind::I128 => serde_json::to_string(&(bits as i64)),
+        Kind::I8 | Kind::I16 | Kind::I32 | Kind::I64 => serde_json::to_string(&(bits as i64)),
+        Kind::I128 => serde_json::to_string(&crate::node::wide::decode(bits)),
+        Kind::U128 => serde_json::to_string(&(crate::node::wide::decode(bits) as u128)),
         Kind::Bool => serde_json::to_string(&(bits != 0)),
         _ => serde_json::to_string(&bits),
     };
@@ -717,7 +723,7 @@ pub fn run_json(ops: &dyn Ops, plan: &JPlan, opts: RunOpts) -> Outcome {
         k.iter().any(|x| matches!(x, Kind::I128 | Kind::U128))
     };
     let adjusted;
-    let plan = if wide && matches!(plan.reader, JReader::Flatten | JReader::Untagged) {
+    let plan = if wide && matches!(plan.reader, JReader::Flatten | JReader::Untagged | JReader::Value) {
         adjusted = JPlan { reader: JReader::Slice, ..plan.clone() };
         &adjusted
     } else {
@@ -855,7 +861,8 @@ pub fn run_json(ops: &dyn Ops, plan: &JPlan, opts: RunOpts) -> Outcome {
     }
 
     // ---- read ------------------------------------------------------------------------------
-    let structural = !plan.rfaults.is_empty() || plan.escape_keys || plan.ws != 0 || plan.patch.is_some();
+    let structural = !plan.rfaults.is_empty() || plan.escape_keys || plan.ws != 0 || plan.patch.is_some() || plan.null_field.is_some();
+    let mut nulled: Option<String> = None;
     let mut expected = echo.clone();
     let mut patched = false;
     let mut text: Option<Vec<u8>> = None;
@@ -876,13 +883,23 @@ pub fn run_json(ops: &dyn Ops, plan: &JPlan, opts: RunOpts) -> Outcome {
         } else if let Some(t) = tree.as_mut() {
             if let Some(patch) = plan.patch.as_ref() {
                 if leaf_paths.len() == m.len() && patch.len() == m.len() {
+                    let mut exp = echo.clone();
                     for (i, p) in leaf_paths.iter().enumerate() {
-                        if let Some(Node::Num { bits, .. }) = leaf_mut(t, p.as_slice()) {
-                            *bits = patch[i];
+                        if let Some(Node::Num { kind, bits }) = leaf_mut(t, p.as_slice()) {
+                            if let Some(b) = crate::node::convert_num(kinds[i], patch[i], *kind) {
+                                *bits = b;
+                                exp[i] = json_echo(kinds[i], patch[i]);
+                            }
                         }
                     }
-                    expected = kinds.iter().zip(patch.iter()).map(|(k, b)| json_echo(*k, *b)).collect();
+                    expected = exp;
                     patched = expected != echo;
+                }
+            }
+            if let Some(path) = plan.null_field.as_ref() {
+                // judged on its own: only without any other damage to the text
+                if plan.rfaults.is_empty() && plan.trunc_at.is_none() && plan.flip.is_none() && plan.r_err_at.is_none() {
+                    nulled = crate::oracle::apply_null_field(t, path);
                 }
             }
             let unknown_vals: Vec<Node> = plan
@@ -979,7 +996,23 @@ pub fn run_json(ops: &dyn Ops, plan: &JPlan, opts: RunOpts) -> Outcome {
                 .collect();
         }
 
-        if flipped {
+        if let Some(name) = &nulled {
+            eval!("A7");
+            out.nulled = true;
+            if let Ok(got) = &res {
+                let mut s = String::new();
+                let mut at = 0;
+                shape.render(got, &mut at, &mut s);
+                fail!(
+                    "A7",
+                    "the value of field `{}` is null in {:?} and deserialize returned Ok({}): that component was never in the text",
+                    name,
+                    String::from_utf8_lossy(&bytes),
+                    s
+                );
+            }
+            out.nontrivial = true;
+        } else if flipped {
             // A8: silent corruption. The only thing the property lets us demand is that the
             // hand-written Decomposed impl judges the damaged text like the derive mirror does.
             if let Some(mir) = ops.mirror_read(&bytes, plan) {
